@@ -31,7 +31,8 @@ type Action struct {
 	Status string    `json:"status,omitempty"`
 	Head   []string  `json:"head,omitempty"`
 	Tail   []string  `json:"tail,omitempty"`
-	// LongBackoff: for a Fail release, make the back-off long (the next action is expected to be stop)
+	// LongBackoff: for a Fail or Repeat release, make the delay before the next pick long (the next
+	// action is expected to be stop, which then lands inside the delay)
 	LongBackoff bool `json:"long_backoff,omitempty"`
 }
 
@@ -86,9 +87,9 @@ func Gen(t *rapid.T, withStop bool) Case {
 				a.Tail = append(a.Tail, fresh())
 			}
 			if preStop && rapid.Bool().Draw(t, "failBeforeStop") {
-				a.Status = "Fail"
+				a.Status = rapid.SampledFrom([]string{"Fail", "Repeat"}).Draw(t, "delayKind")
 			}
-			if preStop && a.Status == "Fail" {
+			if preStop && (a.Status == "Fail" || a.Status == "Repeat") {
 				a.LongBackoff = true
 			}
 		case "stall":
@@ -278,6 +279,12 @@ func Run(c Case) (ev.Info, error) {
 			res.HeadTasks, res.TailTasks = head, tail
 			if a.LongBackoff && a.Status == "Fail" {
 				st.w.Q.ExponentialBackoffFn = func(int) time.Duration { return 300 * time.Millisecond }
+				st.backoff = true
+			}
+			if a.LongBackoff && a.Status == "Repeat" {
+				// the production relation: the repeat delay (25ms) is shorter than the wait loop tick (125ms)
+				st.w.Q.WaitLoopCheckInterval = 150 * time.Millisecond
+				st.w.Q.DelayOnRepeat = 40 * time.Millisecond
 				st.backoff = true
 			}
 			switch res.Status {
